@@ -1,9 +1,380 @@
-import SqlObjVerif.Model.Tx
+import SqlObjVerif.Lemmas.Tx
+/-!
+# C07 — transactions: invisible until commit, visible after, erased by rollback, refused when finished
+
+Property theorems only.  `step`/`run` are the model of `Model/Tx.lean`; every statement is for an arbitrary
+model state `s` (no bound on the number of rows, instances, columns or earlier steps) or for every history.
+
+* full strength, proved: `C07_isolation*`, `C07_commit_visible`, `C07_rollback_erases`,
+  `C07_obsolete_refuses*`, `C07_parent_reads_committed`;
+* full strength, FALSE of the code (replayed on the implementation by the harness):
+  `C07_commit_no_stale_full_FALSE`, `C07_rollback_instances_full_FALSE`;
+* `_partial`: the same statements for the histories inside the decidable class `good` (Lemmas/Tx.lean).
+-/
 namespace SqlObjVerif.Tx
 
-/-- placeholder while the harness is brought up: an obsolete transaction ignores commit -/
-theorem C07_obsolete_commit_noop (s : St) (close : Bool) (h : s.obsolete = true) :
-    (step s (.commit close)).1 = s := by
-  simp [step, opCommit, h]
+/-! ## Isolation -/
+
+/-- Nothing a transaction does short of `commit` — create, update, delete, select, get, expire, cull, rollback,
+    begin — changes the committed database or anything on the parent side (its instances, their cached values,
+    its cache). -/
+theorem C07_isolation_step (s : St) (op : Op) (hT : op.side = .T) (hc : op.isCommit = false) :
+    (step s op).1.db = s.db ∧ (step s op).1.p = s.p ∧ (step s op).1.dc = s.dc := by
+  cases op <;> simp only [Op.side] at hT <;> (try subst hT) <;> simp only [Op.isCommit] at hc
+  case create k row => simp only [step, opCreate]; (repeat' split) <;> exact ⟨rfl, rfl, rfl⟩
+  case get k b => simp only [step, opGet]; (repeat' split) <;> exact ⟨rfl, rfl, rfl⟩
+  case read j c => simp only [step, opRead]; (repeat' split) <;> exact ⟨rfl, rfl, rfl⟩
+  case set j c v => simp only [step, opSet]; (repeat' split) <;> exact ⟨rfl, rfl, rfl⟩
+  case destroy j => simp only [step, opDestroy]; (repeat' split) <;> exact ⟨rfl, rfl, rfl⟩
+  case expire j => simp only [step, opExpire]; (repeat' split) <;> exact ⟨rfl, rfl, rfl⟩
+  case select cls =>
+    simp only [step, opSelect]
+    split
+    · exact ⟨rfl, rfl, rfl⟩
+    · exact ⟨(selFold_frame .T _ _).1, selFold_T_p _ _, (selFold_frame .T _ _).2.1⟩
+  case drop j => simp only [step, opDrop]; (repeat' split) <;> exact ⟨rfl, rfl, rfl⟩
+  case weaken k => exact ⟨rfl, rfl, rfl⟩
+  case purge => exact ⟨rfl, rfl, rfl⟩
+  case commit => simp at hc
+  case rollback => simp only [step, opRollback]; (repeat' split) <;> exact ⟨rfl, rfl, rfl⟩
+  case begin => simp only [step, opBegin]; (repeat' split) <;> exact ⟨rfl, rfl, rfl⟩
+
+/-- … and so for any number of transaction-side steps. -/
+theorem C07_isolation_history (s : St) (ops : List Op)
+    (h : ∀ op ∈ ops, op.side = .T ∧ op.isCommit = false) :
+    (run s ops).db = s.db ∧ (run s ops).p = s.p := by
+  induction ops generalizing s with
+  | nil => exact ⟨rfl, rfl⟩
+  | cons op ops ih =>
+    have h1 := C07_isolation_step s op (h op (by simp)).1 (h op (by simp)).2
+    have h2 := ih (step s op).1 (fun o ho => h o (by simp [ho]))
+    exact ⟨h2.1.trans h1.1, h2.2.trans h1.2.1⟩
+
+/-- What the parent connection reads from the database is the committed state, whatever the transaction's
+    write set holds: a read that is not answered from the instance's own cached value, and a `get` that is
+    not answered from the parent cache, return the committed row (or not-found). -/
+theorem C07_parent_reads_committed (s : St) :
+    (∀ j c, j < s.p.n → (s.p.insts j).cached c = none →
+        (step s (.read .P j c)).2 = freshAnswer (s.db (s.p.insts j).key) c)
+    ∧ (∀ k b, (s.p.cacheGet s.dc k).1 = none →
+        ((step s (.get .P k b)).2 = .notFound ↔ s.db k = none)
+        ∧ (∀ row, s.db k = some row →
+            (step s (.get .P k b)).2 = .inst s.p.n
+            ∧ ∀ c, ((step s (.get .P k b)).1.p.insts s.p.n).cached c = some (row c))) := by
+  refine ⟨fun j c hj hc => opRead_fresh s .P j c hj hc rfl, ?_⟩
+  intro k b hm
+  have hb : (b && s.refused .P) = false := by simp [St.refused]
+  cases hc : s.p.cacheGet s.dc k with
+  | mk hit c' =>
+    have hhit : hit = none := by rw [hc] at hm; exact hm
+    subst hhit
+    have hn : c'.n = s.p.n := by have := Conn.cacheGet_n s.dc s.p k; rw [hc] at this; exact this
+    cases hd : s.db k with
+    | none => simp [step, opGet, St.conn, hc, St.refused, St.view, hd]
+    | some row =>
+      refine ⟨by simp [step, opGet, St.conn, hc, St.refused, St.view, hd], ?_⟩
+      intro row' hr
+      cases hr
+      refine ⟨by simp [step, opGet, St.conn, hc, St.refused, St.view, hd, hn], ?_⟩
+      intro c
+      simp [step, opGet, St.conn, hc, St.refused, St.view, hd, hn]
+
+/-! ## Commit -/
+
+/-- After `commit`, the committed database is exactly the pre-commit database overridden by the write set
+    (updated rows, created rows, deleted rows), the transaction continues on it with an empty write set, and
+    every parent instance the expiry loop reaches answers its next read with the committed value — not-found
+    for a deleted row. -/
+theorem C07_commit_visible (s : St) (close : Bool) (h : s.obsolete = false) :
+    (∀ k, (step s (.commit close)).1.db k = s.view .T k)
+    ∧ (∀ k, (step s (.commit close)).1.view .T k = (step s (.commit close)).1.db k)
+    ∧ (step s (.commit close)).1.lock = false
+    ∧ (step s (.commit close)).1.obsolete = close
+    ∧ (step s (.commit close)).1.t = s.t
+    ∧ (∀ j c, j < s.p.n → s.reached (s.p.insts j).key = true → s.p.tryGet s.dc (s.p.insts j).key = some j →
+        (step (step s (.commit close)).1 (.read .P j c)).2
+          = freshAnswer ((step s (.commit close)).1.db (s.p.insts j).key) c) := by
+  simp only [step, opCommit, h]
+  refine ⟨fun _ => rfl, fun _ => rfl, rfl, rfl, rfl, ?_⟩
+  intro j c hj hr ht
+  rw [opRead_fresh]
+  · simp [St.conn, St.commitExpire, hr, ht, Inst.expire, St.view]
+  · exact hj
+  · simp [St.conn, St.commitExpire, hr, ht, Inst.expire]
+  · rfl
+
+/-- the invariant of the good histories gives the reading of every live instance on both sides -/
+theorem read_of_inv {s : St} (hi : Inv s) (sd : Side) (j : Nat) (c : Col) (hj : j < (s.conn sd).n)
+    (hd : ((s.conn sd).insts j).destroyed = false) (hr : s.refused sd = false) :
+    (step s (.read sd j c)).2 = freshAnswer (s.view sd ((s.conn sd).insts j).key) c := by
+  cases hc : ((s.conn sd).insts j).cached c with
+  | none => exact opRead_fresh s sd j c hj hc hr
+  | some v =>
+    simp only [step, opRead_cached s sd j c v hj hc]
+    have := hi.coh sd j c v hd hc
+    cases hv : s.view sd ((s.conn sd).insts j).key with
+    | none => rw [hv] at this; simp at this
+    | some r => rw [hv] at this; simp at this; simp [freshAnswer, this]
+
+/-- **No stale value — partial.**  For every history whose steps stay inside `good` (any length, any number
+    of commit / rollback+begin / commit(close) points), in the state reached: every read of every live
+    parent-side instance, cached or not, answers the committed value of its row (not-found if the row is
+    gone), and every read of every live transaction-side instance answers the transaction's own view. -/
+theorem C07_commit_no_stale_partial (dc : Bool) (ops : List Op) (hg : GoodHist (init dc) ops) :
+    (∀ j c, j < (run (init dc) ops).p.n → ((run (init dc) ops).p.insts j).destroyed = false →
+        (step (run (init dc) ops) (.read .P j c)).2
+          = freshAnswer ((run (init dc) ops).db ((run (init dc) ops).p.insts j).key) c)
+    ∧ (∀ j c, (run (init dc) ops).obsolete = false →
+        j < (run (init dc) ops).t.n → ((run (init dc) ops).t.insts j).destroyed = false →
+        (step (run (init dc) ops) (.read .T j c)).2
+          = freshAnswer ((run (init dc) ops).view .T ((run (init dc) ops).t.insts j).key) c) := by
+  have hi := run_inv (Inv.init dc) ops hg
+  refine ⟨fun j c hj hd => read_of_inv hi .P j c hj hd rfl, ?_⟩
+  intro j c ho hj hd
+  exact read_of_inv hi .T j c hj hd (by simp [St.refused, ho])
+
+/-- one `good` commit from any state satisfying the invariant: every live parent instance then reads the new
+    committed state (= old database overridden by the write set). -/
+theorem C07_commit_step_partial (s : St) (close : Bool) (hi : Inv s) (hg : good s (.commit close) = true)
+    (j : Nat) (c : Col) (hj : j < s.p.n) (hd : (s.p.insts j).destroyed = false) (ho : s.obsolete = false) :
+    (step (step s (.commit close)).1 (.read .P j c)).2 = freshAnswer (s.view .T (s.p.insts j).key) c := by
+  have hi' := step_inv hi (.commit close) hg
+  have hk : ((step s (.commit close)).1.p.insts j).key = (s.p.insts j).key := by
+    simp only [step, opCommit, ho, St.commitExpire, Bool.false_eq_true, if_false]; split <;> rfl
+  have hd' : ((step s (.commit close)).1.p.insts j).destroyed = false := by
+    simp only [step, opCommit, ho, St.commitExpire, Bool.false_eq_true, if_false]; split <;> simp [Inst.expire, hd]
+  have hn : (step s (.commit close)).1.p.n = s.p.n := by simp [step, opCommit, ho, St.commitExpire]
+  have := read_of_inv hi' .P j c (by simpa [St.conn, hn] using hj) hd' rfl
+  rw [this]
+  simp only [St.conn, hk]
+  simp [St.view, step, opCommit, ho]
+
+/-! ### the full-strength statement is false of the code: three witnesses -/
+
+def row10 : Row := fun c => if c = 0 then 1 else 0
+
+/-- (a) the transaction-side instance was culled and collected before the commit -/
+def witnessCulled : List Op :=
+  [.create .P 1 row10, .get .T 1 false, .set .T 0 0 2, .weaken .T 1, .drop .T 0, .commit false]
+
+/-- (b1) the transaction-side instance was detached from the transaction cache by an earlier rollback -/
+def witnessTxDetached : List Op :=
+  [.create .P 1 row10, .get .T 1 false, .rollback, .begin, .set .T 0 0 3, .commit false]
+
+/-- (b2) the parent instance was detached from the parent cache by the first commit's `expire()` -/
+def witnessParentDetached : List Op :=
+  [.create .P 1 row10, .get .T 1 false, .set .T 0 0 2, .commit false, .read .P 0 0, .set .T 0 0 3, .commit false]
+
+/-- the stale answer and the committed value in the state after a history -/
+def staleCheck (ops : List Op) : Out × Option Val :=
+  ((step (run (init true) ops) (.read .P 0 0)).2, ((run (init true) ops).db 1).map fun r => r 0)
+
+theorem C07_witness_culled : staleCheck witnessCulled = (.val 1, some 2) := by decide
+theorem C07_witness_tx_detached : staleCheck witnessTxDetached = (.val 1, some 3) := by decide
+theorem C07_witness_parent_detached : staleCheck witnessParentDetached = (.val 2, some 3) := by decide
+
+/-- **No stale value — full strength — is FALSE of the code.**  "After every history, every read of a live
+    parent-side instance answers the committed value" fails (witness (a); (b1), (b2) above are two more). -/
+theorem C07_commit_no_stale_full_FALSE :
+    ¬ (∀ (dc : Bool) (ops : List Op) (j : Nat) (c : Col), j < (run (init dc) ops).p.n →
+        ((run (init dc) ops).p.insts j).destroyed = false →
+        (step (run (init dc) ops) (.read .P j c)).2
+          = freshAnswer ((run (init dc) ops).db ((run (init dc) ops).p.insts j).key) c) := by
+  intro h
+  have := h true witnessCulled 0 0 (by decide) (by decide)
+  revert this
+  decide
+
+/-! ## Rollback -/
+
+/-- `rollback` leaves the committed database and the whole parent side untouched, empties the write set (so no
+    row created in the transaction exists in anybody's view), finishes the transaction, and every
+    transaction-side instance its expiry loop reaches shows the committed (pre-transaction) state on its next
+    read after `begin()`. -/
+theorem C07_rollback_erases (s : St) (h : s.obsolete = false) :
+    (step s .rollback).1.db = s.db ∧ (step s .rollback).1.p = s.p
+    ∧ (∀ k, (step s .rollback).1.view .T k = s.db k)
+    ∧ (∀ k, s.db k = none → (step s .rollback).1.view .T k = none ∧ (step s .rollback).1.db k = none)
+    ∧ (step s .rollback).1.obsolete = true ∧ (step s .rollback).1.lock = false
+    ∧ (∀ j c, j < s.t.n → s.t.tryGet s.dc (s.t.insts j).key = some j →
+        (step (step (step s .rollback).1 .begin).1 (.read .T j c)).2 = freshAnswer (s.db (s.t.insts j).key) c) := by
+  simp only [step, opRollback, h]
+  refine ⟨rfl, rfl, fun _ => rfl, fun k hk => ⟨hk, hk⟩, rfl, rfl, ?_⟩
+  intro j c hj ht
+  simp only [opBegin]
+  rw [opRead_fresh]
+  · simp [St.conn, St.rollbackExpire, ht, Inst.expire, St.view]
+  · exact hj
+  · simp [St.conn, St.rollbackExpire, ht, Inst.expire]
+  · rfl
+
+/-- one `good` rollback + begin from any state satisfying the invariant: every live transaction-side instance
+    then reads the committed (pre-transaction) state. -/
+theorem C07_rollback_instances_partial (s : St) (hi : Inv s) (hg : good s .rollback = true)
+    (j : Nat) (c : Col) (hj : j < s.t.n) (hd : (s.t.insts j).destroyed = false) (ho : s.obsolete = false) :
+    (step (step (step s .rollback).1 .begin).1 (.read .T j c)).2 = freshAnswer (s.db (s.t.insts j).key) c := by
+  have hi' := step_inv (step_inv hi .rollback hg) .begin rfl
+  have hk : ((step (step s .rollback).1 .begin).1.t.insts j).key = (s.t.insts j).key := by
+    simp only [step, opRollback, ho, opBegin, St.rollbackExpire, Bool.false_eq_true, if_false, if_true]; split <;> rfl
+  have hd' : ((step (step s .rollback).1 .begin).1.t.insts j).destroyed = false := by
+    simp only [step, opRollback, ho, opBegin, St.rollbackExpire, Bool.false_eq_true, if_false, if_true]
+    split <;> simp [Inst.expire, hd]
+  have hn : (step (step s .rollback).1 .begin).1.t.n = s.t.n := by
+    simp [step, opRollback, ho, opBegin, St.rollbackExpire]
+  have hob : (step (step s .rollback).1 .begin).1.obsolete = false := by simp [step, opRollback, ho, opBegin]
+  have := read_of_inv hi' .T j c (by simpa [St.conn, hn] using hj) hd' (by simp [St.refused, hob])
+  rw [this]
+  simp only [St.conn, hk]
+  simp [St.view, step, opRollback, ho, opBegin]
+
+/-- (b3) a transaction-side instance detached by an earlier rollback keeps what was written through it -/
+def witnessRollbackDetached : List Op :=
+  [.create .P 1 row10, .get .T 1 false, .rollback, .begin, .read .T 0 0, .set .T 0 0 7, .rollback, .begin]
+
+theorem C07_witness_rollback_detached :
+    ((step (run (init true) witnessRollbackDetached) (.read .T 0 0)).2,
+     ((run (init true) witnessRollbackDetached).db 1).map fun r => r 0) = (.val 7, some 1) := by decide
+
+/-- **"After rollback + begin the transaction's instances show the pre-transaction state" — full strength — is
+    FALSE of the code.** -/
+theorem C07_rollback_instances_full_FALSE :
+    ¬ (∀ (s : St) (ops : List Op) (j : Nat) (c : Col), s = run (init true) ops → s.obsolete = false → j < s.t.n →
+        (s.t.insts j).destroyed = false →
+        (step (step (step s .rollback).1 .begin).1 (.read .T j c)).2 = freshAnswer (s.db (s.t.insts j).key) c) := by
+  intro h
+  have := h _ [.create .P 1 row10, .get .T 1 false, .rollback, .begin, .read .T 0 0, .set .T 0 0 7] 0 0 rfl
+    (by decide) (by decide) (by decide)
+  revert this
+  decide
+
+/-! ## A finished transaction refuses use until `begin()` -/
+
+/-- the transaction-side operations that need the low-level connection (everything except answers that come
+    from an instance's own cached attribute or from the transaction cache) -/
+def usesConn (s : St) : Op → Bool
+  | .create .T _ _ => true
+  | .get .T k b => b || (s.t.cacheGet s.dc k).1.isNone
+  | .read .T j c => decide (j < s.t.n) && ((s.t.insts j).cached c).isNone
+  | .set .T j _ _ => decide (j < s.t.n)
+  | .destroy .T j => decide (j < s.t.n)
+  | .select .T _ => true
+  | _ => false
+
+/-- On a finished transaction every operation that needs the connection is refused (AssertionError) and
+    changes neither the committed database, nor the write set, nor the lock, nor the parent side; the
+    transaction stays finished. -/
+theorem C07_obsolete_refuses (s : St) (op : Op) (h : s.obsolete = true) (hu : usesConn s op = true) :
+    (step s op).2 = .assert ∧ (step s op).1.db = s.db ∧ (step s op).1.ws = s.ws ∧ (step s op).1.lock = s.lock
+    ∧ (step s op).1.p = s.p ∧ (step s op).1.obsolete = true := by
+  cases op with
+  | create sd k row => cases sd <;> simp_all [usesConn, step, opCreate]
+  | get sd k b =>
+    cases sd with
+    | P => simp [usesConn] at hu
+    | T =>
+      simp only [usesConn, Bool.or_eq_true, Option.isNone_iff_eq_none] at hu
+      simp only [step, opGet, St.refused, h, St.conn]
+      cases b with
+      | true => simp [h]
+      | false =>
+        have hu' : (s.t.cacheGet s.dc k).1 = none := by simpa using hu
+        cases hc : s.t.cacheGet s.dc k with
+        | mk hit c' => rw [hc] at hu'; subst hu'; simp [h]
+  | read sd j c =>
+    cases sd with
+    | P => simp [usesConn] at hu
+    | T =>
+      simp only [usesConn, Bool.and_eq_true, decide_eq_true_eq, Option.isNone_iff_eq_none] at hu
+      have : ¬ (j ≥ s.t.n) := by omega
+      simp [step, opRead, St.conn, this, hu.2, St.refused, h]
+  | set sd j c v =>
+    cases sd with
+    | P => simp [usesConn] at hu
+    | T =>
+      simp only [usesConn, decide_eq_true_eq] at hu
+      have : ¬ (j ≥ s.t.n) := by omega
+      simp [step, opSet, St.conn, this, h]
+  | destroy sd j =>
+    cases sd with
+    | P => simp [usesConn] at hu
+    | T =>
+      simp only [usesConn, decide_eq_true_eq] at hu
+      have : ¬ (j ≥ s.t.n) := by omega
+      simp [step, opDestroy, St.conn, this, h]
+  | select sd cls => cases sd <;> simp_all [usesConn, step, opSelect, St.refused]
+  | expire sd j => simp [usesConn] at hu
+  | drop sd j => simp [usesConn] at hu
+  | weaken sd k => simp [usesConn] at hu
+  | purge sd cls => simp [usesConn] at hu
+  | commit c => simp [usesConn] at hu
+  | rollback => simp [usesConn] at hu
+  | begin => simp [usesConn] at hu
+
+/-- `commit` and `rollback` of a finished transaction do nothing; `begin()` makes it usable again, and is
+    itself refused while the transaction is active. -/
+theorem C07_obsolete_commit_rollback_begin (s : St) :
+    (s.obsolete = true → ∀ close, step s (.commit close) = (s, .ok))
+    ∧ (s.obsolete = true → step s .rollback = (s, .ok))
+    ∧ (s.obsolete = true → (step s .begin).2 = .ok ∧ (step s .begin).1.obsolete = false
+          ∧ (step s .begin).1.db = s.db ∧ (∀ k, (step s .begin).1.view .T k = s.view .T k))
+    ∧ (s.obsolete = false → step s .begin = (s, .assert))
+    ∧ (s.obsolete = false → (step s .rollback).1.obsolete = true ∧ (step s (.commit true)).1.obsolete = true) := by
+  refine ⟨?_, ?_, ?_, ?_, ?_⟩
+  · intro h close; simp [step, opCommit, h]
+  · intro h; simp [step, opRollback, h]
+  · intro h; simp [step, opBegin, h, St.view]
+  · intro h; simp [step, opBegin, h]
+  · intro h; simp [step, opRollback, opCommit, h]
+
+/-- whatever is tried on either side, a finished transaction stays finished — with an empty write set and no
+    lock — until `begin()` is called -/
+theorem C07_obsolete_until_begin (s : St) (ops : List Op) (h : s.obsolete = true)
+    (hb : ∀ op ∈ ops, op ≠ .begin) :
+    (run s ops).obsolete = true ∧ (run s ops).ws = s.ws ∧ (run s ops).lock = s.lock := by
+  induction ops generalizing s with
+  | nil => exact ⟨h, rfl, rfl⟩
+  | cons op ops ih =>
+    have hstep : (step s op).1.obsolete = true ∧ (step s op).1.ws = s.ws ∧ (step s op).1.lock = s.lock := by
+      cases op with
+      | create sd k row => cases sd <;> simp only [step, opCreate, h] <;> (repeat' split) <;> simp_all
+      | get sd k b => simp only [step, opGet]; (repeat' split) <;> simp_all
+      | read sd j c => simp only [step, opRead]; (repeat' split) <;> simp_all
+      | set sd j c v => cases sd <;> simp only [step, opSet, h] <;> (repeat' split) <;> simp_all
+      | destroy sd j => cases sd <;> simp only [step, opDestroy, h] <;> (repeat' split) <;> simp_all
+      | expire sd j => simp only [step, opExpire]; (repeat' split) <;> simp_all
+      | select sd cls =>
+        simp only [step, opSelect]
+        split
+        · simp_all
+        · have := selFold_frame sd (s.dom.filter fun k => clsOf k == cls) (s, [])
+          exact ⟨this.2.2.2.2.1.trans h, this.2.2.1, this.2.2.2.1⟩
+      | drop sd j => simp only [step, opDrop]; (repeat' split) <;> simp_all
+      | weaken sd k => simp_all [step]
+      | purge sd cls => simp_all [step]
+      | commit c => simp [step, opCommit, h]
+      | rollback => simp [step, opRollback, h]
+      | begin => exact absurd rfl (hb .begin (by simp))
+    have := ih (step s op).1 hstep.1 (fun o ho => hb o (by simp [ho]))
+    exact ⟨this.1, this.2.1.trans hstep.2.1, this.2.2.trans hstep.2.2⟩
+
+/-! ## Non-vacuity -/
+
+-- a good history with two commits on the same row: the parent instance is re-fetched (`get`) after the first
+-- commit, so the second commit reaches it; both reads are fresh
+example : GoodHist (init true)
+    [.create .P 1 row10, .get .T 1 false, .set .T 0 0 2, .commit false, .get .P 1 false, .read .P 1 0,
+     .set .T 0 0 3, .commit false] := by decide
+example : (outs (init true)
+    [.create .P 1 row10, .get .T 1 false, .set .T 0 0 2, .read .P 0 0, .commit false, .read .P 0 0]).getLast?
+      = some (.val 2) := by decide
+-- isolation is not vacuous: the transaction's view differs from the committed database before commit
+example : ((run (init true) [.create .P 1 row10, .get .T 1 false, .set .T 0 0 2]).view .T 1).map (· 0) = some 2
+    ∧ ((run (init true) [.create .P 1 row10, .get .T 1 false, .set .T 0 0 2]).db 1).map (· 0) = some 1 := by decide
+-- refusal: after commit(close) a transaction-side update answers Assert, after begin it works
+example : outs (init true) [.create .P 1 row10, .get .T 1 false, .commit true, .set .T 0 0 5, .begin, .set .T 0 0 5]
+    = [.inst 0, .inst 0, .ok, .assert, .ok, .ok] := by decide
+-- the witnesses are outside `good` (that is the excluded class)
+example : ¬ GoodHist (init true) witnessCulled := by decide
+example : ¬ GoodHist (init true) witnessParentDetached := by decide
 
 end SqlObjVerif.Tx
